@@ -376,7 +376,7 @@ def verify_one(args):
                             "model": None, "smt2": ""})
             return {"function": name, "obls": res, "paths": 0, "solver_time": sum(x["time_s"] for x in res),
                     "wall": time.time() - t0, "error": None}
-        if con.name not in sources:
+        if con.ghost.get("of", con.name) not in sources:
             return {"function": name, "error": "function %s not found in the source "
                     "(renamed or deleted?)" % name, "obls": []}
         eng.verify_function(con, cases=cases)
